@@ -119,6 +119,7 @@ extern void *__real_mremap(void *, size_t, size_t, int, ...);
 extern int __real_usleep(useconds_t);
 extern unsigned int __real_sleep(unsigned int);
 extern int __real_sched_yield(void);
+extern int __real_pthread_sigmask(int, const sigset_t *, sigset_t *);
 extern void __real_pthread_exit(void *) __attribute__((noreturn));
 
 static uint64_t xs(uint64_t *s) { *s ^= *s << 13; *s ^= *s >> 7; *s ^= *s << 17; return *s; }
@@ -749,6 +750,13 @@ int __wrap_poll(struct pollfd *fds, nfds_t n, int timeout)
 int __wrap_usleep(useconds_t us) { if (active && self && !in_rt) { yield_hint(); return 0; } return __real_usleep(us); }
 unsigned int __wrap_sleep(unsigned int s) { if (active && self && !in_rt) { yield_hint(); return 0; } return __real_sleep(s); }
 int __wrap_sched_yield(void) { if (active && self && !in_rt) { yield_hint(); return 0; } return __real_sched_yield(); }
+
+/* a signal can be delivered right before the mask changes: blocking/unblocking signals is an interruption point of its own */
+int __wrap_pthread_sigmask(int how, const sigset_t *set, sigset_t *old)
+{
+	if (active && self && !in_rt && set) sched_point();
+	return __real_pthread_sigmask(how, set, old);
+}
 
 /* simulated 2-CPU machine: cpu of a thread = cfg "cpu<scen_idx>" or engine id & 1 */
 static int ncpus = 2;
